@@ -11,9 +11,20 @@
   from them are GENERATED from the installed descriptors (`Extracted/WireCodec.lean`).
   UTF-8 (`utf8Enc` / `utf8Dec`, strict: no overlong forms, no surrogates, nothing above U+10FFFF) over `Text`.
 
-  Deviations from a real parser (only reachable with bytes no encoder produces; none enters a theorem's hypothesis):
-  varints are not limited to 10 bytes / 64 bits (so no 2 GiB message limit either), groups (wire types 3 / 4) are
-  refused instead of skipped, a repeated occurrence of a singular embedded message replaces instead of merging.
+  Deviations from a real parser (upb), all only reachable with bytes no encoder produces; none enters a theorem's
+  hypothesis.  The list is what the `wirebytes` stream of harness/props/c08.py and the audit probe (notes/audit3/a1.md,
+  25 crafted byte strings) found — it is checked by that stream where marked (*), not claimed complete:
+    1. varints are not limited to 10 bytes / 64 bits (so no 2 GiB message limit either);
+    2. groups (wire types 3 / 4) are refused instead of skipped;
+    3. a repeated occurrence of a singular embedded message replaces instead of merging (also: a repeated
+       `array_value` / `kvlist_value` member of an AnyValue);
+    4. (*) a map KEY occurring twice gives two entries here, one entry (the later value) in the runtime;
+    5. a map ENTRY whose key field is repeated and that carries an unknown field is moved to the unknown fields by
+       upb (no entry), it is an entry here;
+    6. an enum varint with bit 31 set is a NEGATIVE value in the runtime (int32), here it is the 32-bit pattern;
+       (*) the cut to 32 bits itself is modelled (`dEnum`), and so is (*) last-member-wins for a real oneof
+       (`oneofPick`: WatchResult.good_result / error_result), both exercised by the stream;
+    7. a oneof member record with the WRONG wire type still counts as "written last" here.
 -/
 import DeepModel.Model.WireBase
 
@@ -225,7 +236,9 @@ def dU32 (ps : List Payload) : Int := Int.ofNat (((lastVarint ps).getD 0) % 2 ^ 
 def dU64 (ps : List Payload) : Int := Int.ofNat (((lastVarint ps).getD 0) % 2 ^ 64)
 def dOptU32 (ps : List Payload) : Option Int := (lastVarint ps).map (fun n => Int.ofNat (n % 2 ^ 32))
 def dOptBool (ps : List Payload) : Option Bool := (lastVarint ps).map (fun n => n != 0)
-def dEnum (ps : List Payload) : Option Nat := some ((lastVarint ps).getD 0)
+/-- an enum is an int32 on the wire: the varint is cut to 32 bits (a value with bit 31 set is NEGATIVE in the runtime —
+    the model has no negative enum value: listed deviation) -/
+def dEnum (ps : List Payload) : Option Nat := some (((lastVarint ps).getD 0) % 2 ^ 32)
 def dFixed64 (ps : List Payload) : Int := Int.ofNat ((lastFixed64 ps).getD 0)
 def dStr (ps : List Payload) : Option Text :=
   match lastLen ps with
@@ -242,6 +255,14 @@ def dOptMsg {α} (dec : Bytes → Option α) (ps : List Payload) : Option (Optio
   | none => some none
   | some b => (dec b).map some
 def dRepMsg {α} (dec : Bytes → Option α) (ps : List Payload) : Option (List α) := allSome dec (allLen ps)
+
+/-- the field number (among `ks`, the members of a oneof) that is written LAST in the stream -/
+def lastField (ks : List Nat) (rs : List Rec) : Option Nat :=
+  ((rs.filter (fun r => ks.contains r.fno)).getLast?).map (·.fno)
+
+/-- a member of a oneof is set only when it is the member written last (a later member clears the earlier ones) -/
+def oneofPick {α} (ks : List Nat) (k : Nat) (rs : List Rec) (read : Option (Option α)) : Option (Option α) :=
+  if lastField ks rs = some k then read else some none
 
 /-! map fields: one entry message per pair, key = field 1, value = field 2 (fixed by the protobuf specification),
     both always written -/
